@@ -117,10 +117,13 @@ def _scan_for_uninstrumented_locks():
         raise RuntimeError("lock used outside the instrumented functions (extend install_twins): %s" % bad)
 
 
-def run_threads(mode, entries, schedule, max_steps=6000, allow_unfired=False):
+def run_threads(mode, entries, schedule, max_steps=6000, allow_unfired=False, focus=None):
     """Run logical (G) or real (H) threads under the schedule; returns the driver object."""
     if mode == "G":
-        s = sched.Sched(entries, schedule, max_steps=max_steps, allow_unfired=allow_unfired)
+        if focus is not None:
+            s = sched.FocusSched(entries, schedule, focus, max_steps=max_steps)
+        else:
+            s = sched.Sched(entries, schedule, max_steps=max_steps, allow_unfired=allow_unfired)
         if not isinstance(getattr(_call_stack, "_call_stack_thread_local", None), (threading.local, sched.CoopLocal)):
             from vp.engine import HarnessUnsupported
 
@@ -442,7 +445,7 @@ def _sequential_reference(store, key, state, nthreads):
     return _SEQ[kk]
 
 
-def _run_scenario(mode, store, key, state, schedule, nthreads=2, tag=""):
+def _run_scenario(mode, store, key, state, schedule, nthreads=2, tag="", focus=None):
     """One concurrent run + all checks. Used symbolically (G), natively (G) and for the real-thread replay (H)."""
     ref = _sequential_reference(store, key, state, nthreads)
     sb, prog, calls = _prepare(store, key, state, nthreads)
@@ -453,7 +456,7 @@ def _run_scenario(mode, store, key, state, schedule, nthreads=2, tag=""):
         want = _expected(calls)  # runs the raw bodies: clear the side-channel trace afterwards
         prog.trace.clear()
         try:
-            drv = run_threads(mode, entries, schedule)
+            drv = run_threads(mode, entries, schedule, focus=focus)
         except sched.InfeasibleSchedule:
             return None
         except sched.Deadlock as e:
@@ -1234,3 +1237,113 @@ def thread_kinds(kind: int, warm: bool, fs: bool):
             check("call-stack-empty-afterwards", got["depth"] == 0, got["depth"])
         finally:
             sb.close()
+
+
+# ------------------------------------------------------------------------------------------------
+# deeper pre-emption bound at the points where threads meet in the FILE SYSTEM (content-addressed objects and their link files)
+# ------------------------------------------------------------------------------------------------
+
+import linecache  # noqa: E402
+import re  # noqa: E402
+
+_FOCUS_FILES = {"BlobStrategy.store": _storage_base.__file__, "_FilesystemDataSource.output": _storage_filesystem.__file__,
+                "_FilesystemDataSource._write_non_versioned_link": _storage_filesystem.__file__}
+_FOCUS_RE = re.compile(r"exists_nonversioned\(|get_versioned_key\(|with open\(|\.write\(|os\.replace\(|os\.rename\(")
+
+
+def _fs_focus(tag):
+    """a thread is about to execute a statement that looks at / writes a link file of the data source (decided from the source text of
+    the current tree: the statements of BlobStrategy.store, _FilesystemDataSource.output and ._write_non_versioned_link that mention
+    the existence test, the link read, or an open / write / rename)"""
+    if not (isinstance(tag, tuple) and len(tag) == 2 and tag[0] in _FOCUS_FILES):
+        return False
+    return bool(_FOCUS_RE.search(linecache.getline(_FOCUS_FILES[tag[0]], tag[1])))
+
+
+FP_SCEN = [(1, 5, 0), (1, 4, 0), (3, 5, 0)]  # fs: different functions producing the same bytes; fs: writing one override key; (thorough) 330-byte cache
+FP_CHUNKS = 16
+_FP_ALL = {}
+
+
+def _fp_all(maxf):
+    """every schedule with at most 4 pre-emptions at focus arrivals < maxf, each with every choice of the thread that runs instead"""
+    if maxf not in _FP_ALL:
+        import itertools
+
+        out = [[]]
+        for p_ in range(1, 5):
+            for fs in itertools.combinations(range(maxf), p_):
+                for ks in itertools.product((0, 1), repeat=p_):
+                    out.append(list(zip(fs, ks)))
+        _FP_ALL[maxf] = out
+    return _FP_ALL[maxf]
+
+
+def _fp_decode(chunk, idx, maxf, choose=pick):
+    allp = _fp_all(maxf)
+    mine = len(range(chunk, len(allp), FP_CHUNKS))
+    idx = choose(idx, mine)
+    return allp[chunk + idx * FP_CHUNKS]
+
+
+def _replay_real_fileproto(args, label):
+    from vp import engine
+
+    install_twins()
+    sc = tuple(args["sc"])
+    schedule = _fp_decode(args["chunk"], args["idx"], args["maxf"], choose=_native_choose)
+    try:
+        # the same pre-emptions expressed in steps: taken from a generator run under the focus schedule
+        sb, prog, calls = _prepare(sc[0], sc[1], sc[2], 3)
+        try:
+            drv = run_threads("G", [_entry(fn, x) for fn, x in calls], schedule, focus=_fs_focus)
+            steps = list(drv.step_schedule)
+        finally:
+            prog.close()
+            sb.close()
+        _run_scenario("H", sc[0], sc[1], sc[2], steps, 3)
+    except engine.CheckFailed as e:
+        return "reproduced on real threads (%s)" % e.label if e.label == label else "real threads fail a different check: %s" % e.label
+    except Exception as e:  # noqa
+        if label == "unexpected-exception":
+            return "reproduced on real threads (unexpected exception %s)" % type(e).__name__
+        return "real threads raise %s instead of failing %s" % (type(e).__name__, label)
+    return "not-reproduced"
+
+
+@obligation(
+    "C09.file_protocol_p4",
+    covers=("preemptions=4", "a-reader-suspended-between-existence-test-and-link-read", "a-writer-suspended-inside-the-link-write"),
+    split={"sc": FP_SCEN[:2], "chunk": list(range(FP_CHUNKS))},
+    tier_split={"thorough": {"sc": FP_SCEN, "chunk": list(range(FP_CHUNKS))}},
+    tier_args={"quick": {"maxf": 10}, "thorough": {"maxf": 12}},
+    bounds="3 threads, cold filesystem store: different functions producing the SAME bytes (one content-addressed object and link "
+           "file) and different functions writing ONE override key (thorough: also with the 330-byte cache); EVERY schedule with at most "
+           "4 pre-emptions placed at the file-system protocol points - a thread about to test the existence of the link, to read it, to "
+           "open it for writing, or to write into it (found from the source text of the current tree) - among the first 10 (thorough 12) "
+           "arrivals at such points, with every choice of the thread that runs instead (4521 / 9969 schedules per scenario); everything "
+           "between two such points runs un-pre-empted (the other shared state is covered at statement granularity by calls_p1 / p2 / "
+           "3threads); same checks as calls_p1",
+    variables="choice: index into the list of schedules (partitioned into %d chunks)" % FP_CHUNKS,
+    stubs=("CoopLock / CoopLocal",),
+    budget_s={"quick": 170, "thorough": 900},
+    setup=install_twins,
+    replay_real=_replay_real_fileproto,
+    choice_vars=1,
+)
+def file_protocol_p4(sc: tuple, chunk: int, idx: int, maxf: int):
+    schedule = _fp_decode(chunk, idx, maxf)
+    with concrete_region():
+        install_twins()
+        drv = _run_scenario("G", sc[0], sc[1], sc[2], schedule, 3, focus=_fs_focus)
+        if drv is None:
+            assume(False)  # not realisable (index beyond the focus arrivals of this run / no other runnable thread)
+        cover("preemptions=%d" % len(schedule))
+        arr = drv.focus_arrivals
+        for (f, k) in schedule:
+            line = linecache.getline(_FOCUS_FILES[arr[f][1][0]], arr[f][1][1])
+            if "get_versioned_key(" in line:
+                cover("a-reader-suspended-between-existence-test-and-link-read")
+            if ".write(" in line:
+                cover("a-writer-suspended-inside-the-link-write")
+        note({"schedule": schedule, "arrivals": len(arr)})
